@@ -603,7 +603,18 @@ pub fn judge(prop: &str, case: &Case, out: &Outcome, st: &mut Stats) {
                             }
                         }
                     }
-                    st.fail(tag, format!("{} ({})", e, case.class), replay);
+                    st.fail(tag, format!("{} ({})", e, case.class), replay.clone());
+                }
+                // "a colour key is rounded the same way": where the output keeps the colour type at 8 bits the
+                // key must be the rounded key, component by component - also when no pixel happens to match it
+                if let Some(k16) = &inp.img.trns {
+                    if dec.img.depth == 8 && dec.img.ct == inp.img.ct && (inp.img.ct == 0 || inp.img.ct == 2) {
+                        let want: Vec<u16> = k16.iter().map(|&v| ((v as u32 + 128) / 257) as u16).collect();
+                        st.count("keys_after_scaling_checked");
+                        if dec.img.trns.as_ref() != Some(&want) {
+                            st.fail("scale-key-value", format!("16-bit key {:04x?} became {:?}, rounding gives {:02x?} ({})", k16, dec.img.trns, want, case.class), replay);
+                        }
+                    }
                 }
             } else {
                 // non-16-bit, or bit-depth changes disabled (C08 is binding): identical to the run
